@@ -1,6 +1,6 @@
 (** C04 — Extremum, arg-extremum and median methods are exact selections. *)
 From Yata Require Import Base.Prelude Base.Num Base.NumR Core.Window Core.Candle
-  Spec.Hist Spec.IndicatorDefs Methods.Basic Methods.Select Proofs.MethodsCommon Proofs.Selection Proofs.Selection2.
+  Spec.Hist Spec.IndicatorDefs Methods.Basic Methods.Select Proofs.MethodsCommon Proofs.Selection Proofs.Selection2 Proofs.Smm.
 From Coq Require Import Reals.
 Open Scope Z_scope.
 
@@ -43,4 +43,17 @@ Proof. exact (upper_pivot_meaning h n j). Qed.
 Theorem C04_low_index_is_newest_extreme (h : nat -> R) n j : (1 <= n)%nat ->
   (argbest flt h n = j <-> (j < n)%nat /\ (forall i, (i < j)%nat -> (h j < h i)%R) /\ (forall i, (i < n)%nat -> (h j <= h i)%R)).
 Proof. exact (lower_pivot_meaning h n j). Qed.
+(** SMM: at every step of every stream [next] succeeds and returns the median of the last n inputs (the average of the
+    two middle elements of their sorted arrangement for even n); the sorted buffer maintained by the two binary searches
+    is THE sorted arrangement of the window (uniqueness of sorted permutations) *)
+Theorem C04_smm n (v : R) xs x : 1 <= n <= pmax - 1 ->
+  exists s0, smm_new n v = Ok s0 /\
+    exists r, smm_next (steps smm_step_t s0 xs) x = Ok r /\ snd r = median_def (Z.to_nat n) (hget v (rev (xs ++ [x]))).
+Proof. exact (smm_correct n v xs x). Qed.
+(** MedianAbsDev: the mean absolute deviation of the last n inputs from their median (n >= 2); never panics *)
+Theorem C04_median_abs_dev n (v : R) xs x : 2 <= n <= pmax - 1 ->
+  exists s0, medad_new n v = Ok s0 /\
+    exists r, medad_next (mkMedAD (steps smm_step_t (md_smm s0) xs) (md_divider s0)) x = Ok r /\
+      snd r = medad_def (Z.to_nat n) (hget v (rev (xs ++ [x]))).
+Proof. exact (medad_correct n v xs x). Qed.
 End C04.
